@@ -180,6 +180,36 @@ func execMeta(o *Out, id, line string) {
 		}
 		o.Emit(id, line, fmt.Sprintf("mdec id=%s in=%s", id, hx(in)), d.String(), key)
 		o.Emit(id+"r", "", fmt.Sprintf("mrs id=%sr in=%s", id, hx(in)), strconv.Itoa(xflate.VerifMetaReverseSearch(in)), "")
+		if d.err == nil && d.blocks > 0 {
+			// counters after every small Read; FinalMode after reading exactly the payload and closing
+			for _, sz := range []int{1, 7} {
+				mr := xflate.VerifNewMetaReader(bytes.NewReader(in))
+				var got []byte
+				buf := make([]byte, sz)
+				for {
+					k, e := mr.Read(buf)
+					got = append(got, buf[:k]...)
+					if mr.OutputOffset != int64(len(got)) || mr.InputOffset > int64(len(in)) {
+						o.Violate("C11", fmt.Sprintf("meta.Reader with %d-byte reads: %d bytes delivered, OutputOffset=%d InputOffset=%d of %d", sz, len(got), mr.OutputOffset, mr.InputOffset, len(in)), "meta-counters", line)
+						break
+					}
+					if e != nil {
+						break
+					}
+				}
+				if !bytes.Equal(got, d.payload) {
+					o.Violate("C10", fmt.Sprintf("meta.Reader with %d-byte reads delivers different data", sz), "meta-read-size", line)
+				}
+			}
+			mr := xflate.VerifNewMetaReader(bytes.NewReader(in))
+			exact := make([]byte, len(d.payload))
+			if _, e := io.ReadFull(mr, exact); e == nil && d.blocks == 1 && len(exact) > 0 { // the one block has been decoded
+				mr.Close()
+				if int(mr.FinalMode) != d.final {
+					o.Violate("C16", fmt.Sprintf("after reading exactly the payload and Close, FinalMode=%d, after reading to EOF %d", int(mr.FinalMode), d.final), "finalmode-after-close", line)
+				}
+			}
+		}
 		// converse: what the meta decoder accepts is an empty DEFLATE block sequence
 		if d.err == nil && d.blocks > 0 {
 			acc := in[:d.consumed]
@@ -404,6 +434,9 @@ func synthMetaBlock(r *Rand, w *bitW, k int) {
 			last = 0
 		case b == last && run >= 3 && r.Intn(4) != 0:
 			c := min(run, 6)
+			if idx+c == 257 && c < 6 && pert() {
+				c++ // the last repeat spills one symbol past the 257 the block may hold
+			}
 			sw.bit(1) // symRepLast 110
 			sw.bit(1)
 			sw.bit(0)
